@@ -358,8 +358,9 @@ pub const BROKEN_ATTRS: &[&str] = &[" junk", " x=", " y=unquoted", " z = 7", " k
 /// * `<line>`: a repeated `ci`/`cb`/`mb`/`nr` BEFORE the last one of its name (the loop visits every
 ///   attribute: the last wins) - with a numeric value, every value is parsed;
 /// * a repeated attribute nobody reads, anywhere;
-/// * an attribute syntax error behind every attribute the parser asks for (never reached), or on a
-///   `<class>` (`sourcefilename` is read with `unwrap_or`: an error is the same as absent).
+/// * an attribute syntax error behind every attribute the parser asks for (never reached; a
+///   `<class>` must HAVE its `sourcefilename`: since /repo 276971e an error met while looking for it
+///   rejects the report).
 pub fn mutate_preserving(g: &mut G, nodes: &mut Vec<Node>) -> Option<String> {
     match g.rng.below(8) {
         0 | 1 | 2 => {
@@ -431,7 +432,7 @@ pub fn mutate_preserving(g: &mut G, nodes: &mut Vec<Node>) -> Option<String> {
             let has = |k: &str| sh.attrs.iter().any(|a| a.key == k);
             let ok = match el {
                 "package" | "sourcefile" => has("name"),
-                "class" => has("name"),
+                "class" => has("name") && has("sourcefilename"),
                 "method" => has("name") && has("line"),
                 "counter" => has("type") && has("covered"),
                 _ => true,
